@@ -89,6 +89,8 @@ def run(tier, v, wd, replay=None):
             f.write(json.dumps(b) + "\n")
     repo = vlib.scratch_repo(wd, "stub")
     run_vectors(v, wd, repo, "./control/", "TestVerifTaskPoolReplay", infile, tags="verif,dae_stub_ebpf", timeout=1500, outname="tp_replay.json")
+    # the same at the code's own channel capacity: bursts that fill the channel and spill far into the overflow FIFO
+    run_vectors(v, wd, repo, "./control/", "TestVerifTaskPoolBurst", infile, tags="verif,dae_stub_ebpf", timeout=900, outname="tp_burst.json")
     walks = "300" if tier == "quick" else "3000"
     tracefile = os.path.join(vlib.spec_dir(wd), "trace.ndjson")
     run_vectors(v, wd, repo, "./control/", "TestVerifTaskPoolRandomWalk", infile, env={"VERIF_TP_WALKS": walks, "VERIF_TRACE_OUT": tracefile},
